@@ -203,12 +203,15 @@ theorem parseBlock_raw (o : Opts) (Ω : Oracles) (rt : Nat) (c : Bytes) (fault :
         unfold newWarcFieldsBlock wfFinish at h
         simp only [hwf, Bool.false_and, Bool.false_eq_true, ↓reduceIte] at h
         obtain ⟨_, t1, _, h⟩ := bind_ok _ _ _ _ _ h
-        obtain ⟨_, t2, _, h⟩ := bind_ok _ _ _ _ _ h
+        obtain ⟨b', t3, hw, h⟩ := bind_ok _ _ _ _ _ h
+        simp only [M.pure_def, Prod.mk.injEq, Except.ok.injEq] at h
+        rw [← h.1]
+        obtain ⟨_, t2, _, hw⟩ := bind_ok _ _ _ _ _ hw
         cases he : (parseFields o.syn ⟨c, false⟩).errTag with
-        | some t => simp [he] at h
+        | some t => simp [he] at hw
         | none =>
-          simp only [he, M.pure_def, Prod.mk.injEq, Except.ok.injEq] at h
-          rw [← h.1]
+          simp only [he, M.pure_def, Prod.mk.injEq, Except.ok.injEq] at hw
+          rw [← hw.1]
           simp only
           split <;> rfl
       · simp only [c3, Bool.false_eq_true, ↓reduceIte, M.pure_def, Prod.mk.injEq, Except.ok.injEq] at h; rw [← h.1]
